@@ -7,6 +7,7 @@ From RV Require Import Base.Prelude Base.IdSet Base.IdSetProofs M.Util M.UtilPro
   M.MemStorage M.MemStorageProofs M.Inflights M.InflightsProofs M.Progress M.RaftLog
   M.RaftLogProofs M.RaftLogProofsOps M.RaftLogProofsSlice M.Quorum M.ConfChange M.Msg M.Raft
   M.RaftProofs M.RaftProofsC15 M.RaftProofsC09.
+From RV Require M.QuorumProofs.
 From RecordUpdate Require Import RecordSet.
 Import RecordSetNotations.
 
@@ -1508,4 +1509,268 @@ Proof.
   - change (role_eqb (r_state r1) PreCandidate) with true in Hw. cbv iota in Hw.
     inversion H; subst r2; clear H.
     apply campaign_real_role in Hw. right. exact Hw.
+Qed.
+
+(* ================================================================== *)
+(* 5. check-quorum step-down and leader heartbeats                     *)
+(* ================================================================== *)
+
+(* the ids the leader counts as recently active: itself and every flagged peer *)
+Definition active_ids (t : tracker) (self : N) : idset :=
+  map fst (filter (fun kp => (fst kp =? self) || recent_active (snd kp)) (t_progress t)).
+
+(* the flags after the check: cleared for everybody but the leader itself *)
+Definition clear_active (t : tracker) (self : N) : tracker :=
+  t <| t_progress := map (fun kp => (fst kp, set_recent_active (snd kp) (fst kp =? self)))
+                         (t_progress t) |>.
+
+Lemma quorum_recently_active_eq t self :
+  quorum_recently_active t self = (clear_active t self, prs_has_quorum t (active_ids t self)).
+Proof. reflexivity. Qed.
+
+Lemma pget_clear_active m self id :
+  pget (map (fun kp => (fst kp, set_recent_active (snd kp) (fst kp =? self))) m) id =
+  option_map (fun p => set_recent_active p (id =? self)) (pget m id).
+Proof.
+  induction m as [|[k p] t IH]; cbn [map pget fst snd]; [reflexivity|].
+  destruct (k =? id) eqn:E; [|exact IH]. apply N.eqb_eq in E. subst k. reflexivity.
+Qed.
+
+(* the recently-active set is a quorum iff it holds a majority of each non-empty half of
+   the (joint) voter configuration (QuorumProofs.has_quorum_spec) *)
+Lemma active_quorum_spec t self :
+  prs_has_quorum t (active_ids t self) = true <->
+  (incoming (t_conf t) = [] \/
+   (majority (length (incoming (t_conf t))) <=
+    QuorumProofs.count (fun v => Quorum.mem v (active_ids t self)) (incoming (t_conf t)))%nat) /\
+  (outgoing (t_conf t) = [] \/
+   (majority (length (outgoing (t_conf t))) <=
+    QuorumProofs.count (fun v => Quorum.mem v (active_ids t self)) (outgoing (t_conf t)))%nat).
+Proof. unfold prs_has_quorum. apply QuorumProofs.has_quorum_spec. Qed.
+
+(* MsgCheckQuorum and MsgBeat are local messages (term 0) handled by the leader *)
+Lemma step_check_quorum r m :
+  r_state r = Leader -> m_type m = MsgCheckQuorum -> m_term m = 0 ->
+  step r m =
+  let r1 := r <| r_prs := clear_active (r_prs r) (r_id r) |> in
+  if prs_has_quorum (r_prs r) (active_ids (r_prs r) (r_id r)) then Ok (r1, E_OK)
+  else r' <- become_follower r1 (r_term r) INVALID_ID ;; Ok (r', E_OK).
+Proof.
+  intros Hs Ht H0. unfold step. rewrite H0. change (0 =? 0) with true. cbn [bind]. rewrite Ht, Hs.
+  change (MsgCheckQuorum =? MsgHup) with false.
+  change (MsgCheckQuorum =? MsgRequestVote) with false.
+  change (MsgCheckQuorum =? MsgRequestPreVote) with false. cbn [orb].
+  unfold step_leader. rewrite Ht.
+  change (MsgCheckQuorum =? MsgBeat) with false.
+  change (MsgCheckQuorum =? MsgCheckQuorum) with true. cbv iota.
+  rewrite quorum_recently_active_eq. cbv zeta.
+  destruct (prs_has_quorum (r_prs r) (active_ids (r_prs r) (r_id r))); reflexivity.
+Qed.
+
+Lemma step_beat r m :
+  r_state r = Leader -> m_type m = MsgBeat -> m_term m = 0 ->
+  step r m = (r' <- bcast_heartbeat r ;; Ok (r', E_OK)).
+Proof.
+  intros Hs Ht H0. unfold step. rewrite H0. change (0 =? 0) with true. cbn [bind]. rewrite Ht, Hs.
+  change (MsgBeat =? MsgHup) with false.
+  change (MsgBeat =? MsgRequestVote) with false.
+  change (MsgBeat =? MsgRequestPreVote) with false. cbn [orb].
+  unfold step_leader. rewrite Ht. reflexivity.
+Qed.
+
+(* --- the heartbeat broadcast, exactly --- *)
+
+Definition hb_msg (r : raft) (ctx : option (list N)) (id : N) : msg :=
+  let mt := match get_pr r id with Some pr => matched pr | None => 0 end in
+  let m := msg_default <| m_to := id |> <| m_type := MsgHeartbeat |>
+             <| m_commit := N.min mt (committed (r_log r)) |> in
+  (match ctx with Some c => m <| m_context := c |> | None => m end)
+    <| m_from := r_id r |> <| m_term := r_term r |>.
+
+Lemma set_msgs_twice (r : raft) a b : r <| r_msgs := a |> <| r_msgs := b |> = r <| r_msgs := b |>.
+Proof. destruct r; reflexivity. Qed.
+
+Lemma set_msgs_same (r : raft) : r <| r_msgs := r_msgs r |> = r.
+Proof. destruct r; reflexivity. Qed.
+
+Lemma pget_in_pids m id : In id (pids m) -> exists p, pget m id = Some p.
+Proof.
+  induction m as [|[k p] t IH]; cbn [pids map fst In pget]; [intros []|].
+  intros [->|H]; [rewrite N.eqb_refl; eauto|].
+  destruct (k =? id); [eauto|apply IH; exact H].
+Qed.
+
+Lemma for_each_peer_heartbeat r ctx self : forall ids acc,
+  (forall id, In id ids -> In id (pids (t_progress (r_prs r)))) ->
+  for_each_peer ids self
+    (fun r id => match get_pr r id with
+                 | Some pr => send_heartbeat r id pr ctx
+                 | None => Panic site_pr_unwrap
+                 end) (r <| r_msgs := acc |>) =
+  Ok (r <| r_msgs := acc ++ map (hb_msg r ctx) (filter (fun id => negb (id =? self)) ids) |>).
+Proof.
+  induction ids as [|id rest IH]; intros acc Hin; cbn [for_each_peer filter map].
+  - rewrite app_nil_r. reflexivity.
+  - destruct (id =? self) eqn:E; cbn [negb].
+    + apply IH. intros x Hx. apply Hin. right. exact Hx.
+    + change (get_pr (r <| r_msgs := acc |>) id) with (get_pr r id).
+      destruct (pget_in_pids _ id (Hin id (or_introl eq_refl))) as [p Hp].
+      unfold get_pr at 1. rewrite Hp. unfold send_heartbeat.
+      destruct ctx as [c|]; rewrite send_plain by reflexivity; cbn [bind];
+        rewrite set_msgs_twice;
+        (rewrite IH by (intros x Hx; apply Hin; right; exact Hx));
+        cbn [map]; rewrite <- app_assoc; cbn [app];
+        unfold hb_msg, get_pr; rewrite Hp; reflexivity.
+Qed.
+
+(* every tracked peer but the leader gets one MsgHeartbeat, carrying
+   min (matched, committed) and the pending read-index context *)
+Theorem bcast_heartbeat_eq r :
+  bcast_heartbeat r =
+  Ok (r <| r_msgs := r_msgs r ++
+        map (hb_msg r (ro_last_pending_request_ctx (r_read_only r)))
+            (filter (fun id => negb (id =? r_id r)) (pids (t_progress (r_prs r)))) |>).
+Proof.
+  unfold bcast_heartbeat, bcast_heartbeat_with_ctx.
+  pose proof (for_each_peer_heartbeat r (ro_last_pending_request_ctx (r_read_only r)) (r_id r)
+                (pids (t_progress (r_prs r))) (r_msgs r) ltac:(auto)) as H.
+  rewrite set_msgs_same in H. exact H.
+Qed.
+
+(* --- tick_heartbeat --- *)
+
+(* the heartbeat phase of a tick *)
+Definition beat_phase (r1 : raft) (hr : bool) : Res (raft * bool) :=
+  if r_heartbeat_timeout r1 <=? r_heartbeat_elapsed r1 then
+    r' <- bcast_heartbeat (r1 <| r_heartbeat_elapsed := 0 |>) ;; Ok (r', true)
+  else Ok (r1, hr).
+
+Lemma beat_phase_eq r1 hr :
+  r_state r1 = Leader ->
+  (if r_heartbeat_timeout r1 <=? r_heartbeat_elapsed r1 then
+     let r2 := r1 <| r_heartbeat_elapsed := 0 |> in
+     z <- step r2 (new_message INVALID_ID MsgBeat (Some (r_id r2))) ;; Ok (fst z, true)
+   else Ok (r1, hr)) = beat_phase r1 hr.
+Proof.
+  intros Hs. unfold beat_phase. destruct (_ <=? _); [|reflexivity]. cbv zeta.
+  rewrite step_beat by (try reflexivity; exact Hs).
+  destruct (bcast_heartbeat _); reflexivity.
+Qed.
+
+(* both counters advanced by one *)
+Definition ticked (r : raft) : raft :=
+  r <| r_heartbeat_elapsed := r_heartbeat_elapsed r + 1 |>
+    <| r_election_elapsed := r_election_elapsed r + 1 |>.
+
+(* MAIN 5a (leader_heartbeats): a leader tick before the election timeout: both counters
+   go up by one; when the heartbeat counter reaches heartbeat_timeout it is cleared and
+   a MsgHeartbeat is queued for every other tracked peer (bcast_heartbeat_eq) *)
+Theorem leader_heartbeats r :
+  r_state r = Leader -> r_election_elapsed r + 1 < r_election_timeout r ->
+  tick r = beat_phase (ticked r) false.
+Proof.
+  intros Hs He. unfold tick. rewrite Hs. unfold tick_heartbeat. fold (ticked r).
+  change (r_election_timeout (ticked r)) with (r_election_timeout r).
+  change (r_election_elapsed (ticked r)) with (r_election_elapsed r + 1).
+  destruct (r_election_timeout r <=? r_election_elapsed r + 1) eqn:E; [lia|].
+  cbn [bind]. change (is_leader (ticked r)) with (is_leader r). unfold is_leader. rewrite Hs.
+  cbn [role_eqb negb]. apply (beat_phase_eq (ticked r) false). exact Hs.
+Qed.
+
+(* the state in which the election-timeout branch of a leader tick continues when the
+   leader stays: counter cleared, flags cleared, pending transfer aborted *)
+Definition after_check (r : raft) (checked : bool) : raft :=
+  let r0 := ticked r <| r_election_elapsed := 0 |> in
+  (if checked then r0 <| r_prs := clear_active (r_prs r) (r_id r) |> else r0)
+    <| r_lead_transferee := None |>.
+
+Lemma clear_transferee r1 :
+  (if is_leader r1 && match r_lead_transferee r1 with Some _ => true | None => false end
+   then r1 <| r_lead_transferee := None |> else r1) =
+  if is_leader r1 then r1 <| r_lead_transferee := None |> else r1.
+Proof.
+  destruct (is_leader r1); [|reflexivity]. cbn [andb].
+  destruct (r_lead_transferee r1) eqn:E; [reflexivity|]. destruct r1; cbn in *. subst. reflexivity.
+Qed.
+
+(* MAIN 5b (checkquorum_stepdown): at the election timeout a leader with check_quorum
+   computes the recently-active set (itself included).  If it is not a quorum the leader
+   becomes a follower of the same term without a leader; otherwise it stays, every
+   recent_active flag but its own is cleared (so the next check needs fresh traffic),
+   a pending leader transfer is aborted, and the heartbeat phase runs. *)
+Theorem checkquorum_stepdown r :
+  r_state r = Leader -> r_election_timeout r <= r_election_elapsed r + 1 ->
+  tick r =
+  if r_check_quorum r then
+    if prs_has_quorum (r_prs r) (active_ids (r_prs r) (r_id r)) then
+      beat_phase (after_check r true) true
+    else
+      r' <- become_follower
+              (ticked r <| r_election_elapsed := 0 |> <| r_prs := clear_active (r_prs r) (r_id r) |>)
+              (r_term r) INVALID_ID ;;
+      Ok (r', true)
+  else beat_phase (after_check r false) false.
+Proof.
+  intros Hs He. unfold tick. rewrite Hs. unfold tick_heartbeat. fold (ticked r).
+  change (r_election_timeout (ticked r)) with (r_election_timeout r).
+  change (r_election_elapsed (ticked r)) with (r_election_elapsed r + 1).
+  destruct (r_election_timeout r <=? r_election_elapsed r + 1) eqn:E; [|lia].
+  cbv zeta.
+  change (r_check_quorum (ticked r <| r_election_elapsed := 0 |>)) with (r_check_quorum r).
+  destruct (r_check_quorum r).
+  - rewrite step_check_quorum by (try reflexivity; exact Hs). cbv zeta.
+    change (r_prs (ticked r <| r_election_elapsed := 0 |>)) with (r_prs r).
+    change (r_id (ticked r <| r_election_elapsed := 0 |>)) with (r_id r).
+    change (r_term (ticked r <| r_election_elapsed := 0 |>)) with (r_term r).
+    destruct (prs_has_quorum (r_prs r) (active_ids (r_prs r) (r_id r))).
+    + cbn [bind fst]. rewrite clear_transferee.
+      set (r1 := ticked r <| r_election_elapsed := 0 |> <| r_prs := clear_active (r_prs r) (r_id r) |>).
+      assert (Hl : is_leader r1 = true) by (unfold is_leader; subst r1; cbn; rewrite Hs; reflexivity).
+      rewrite Hl. cbn [bind].
+      change (is_leader (r1 <| r_lead_transferee := None |>)) with (is_leader r1). rewrite Hl.
+      cbn [negb]. apply (beat_phase_eq (after_check r true) true). cbn. exact Hs.
+    + destruct (become_follower _ (r_term r) INVALID_ID) as [rf|s] eqn:Ebf; cbn [bind]; [|reflexivity].
+      cbn [fst]. rewrite clear_transferee.
+      pose proof (become_follower_fields _ _ _ _ Ebf) as (Hf & _).
+      unfold is_leader. repeat (rewrite Hf; cbn [role_eqb bind negb]). reflexivity.
+  - cbn [bind]. rewrite clear_transferee.
+    set (r1 := ticked r <| r_election_elapsed := 0 |>).
+    assert (Hl : is_leader r1 = true) by (unfold is_leader; subst r1; cbn; rewrite Hs; reflexivity).
+    rewrite Hl. cbn [bind].
+    change (is_leader (r1 <| r_lead_transferee := None |>)) with (is_leader r1). rewrite Hl.
+    cbn [negb]. apply (beat_phase_eq (after_check r false) false). cbn. exact Hs.
+Qed.
+
+(* the two outcomes, spelled out *)
+Corollary checkquorum_stepdown_follower r r' b :
+  r_state r = Leader -> r_election_timeout r <= r_election_elapsed r + 1 ->
+  r_check_quorum r = true ->
+  prs_has_quorum (r_prs r) (active_ids (r_prs r) (r_id r)) = false ->
+  tick r = Ok (r', b) ->
+  r_state r' = Follower /\ r_term r' = r_term r /\ r_leader_id r' = INVALID_ID /\ b = true.
+Proof.
+  intros Hs He Hc Hq H. rewrite (checkquorum_stepdown r Hs He), Hc, Hq in H.
+  inv_bind H. inversion H; subst. apply become_follower_fields in Hx.
+  destruct Hx as (A & _ & _ & _ & _ & _ & B & _ & C0). auto.
+Qed.
+
+Corollary checkquorum_stays_leader r r' b :
+  r_state r = Leader -> r_election_timeout r <= r_election_elapsed r + 1 ->
+  r_check_quorum r = true ->
+  prs_has_quorum (r_prs r) (active_ids (r_prs r) (r_id r)) = true ->
+  tick r = Ok (r', b) ->
+  r_state r' = Leader /\ r_term r' = r_term r /\ r_election_elapsed r' = 0 /\
+  r_lead_transferee r' = None /\ b = true /\
+  forall id, get_pr r' id =
+             option_map (fun p => set_recent_active p (id =? r_id r)) (get_pr r id).
+Proof.
+  intros Hs He Hc Hq H. rewrite (checkquorum_stepdown r Hs He), Hc, Hq in H.
+  unfold beat_phase in H.
+  assert (Hpr : forall id, get_pr (after_check r true) id =
+                 option_map (fun p => set_recent_active p (id =? r_id r)) (get_pr r id)).
+  { intros id. unfold get_pr, after_check. cbn. apply pget_clear_active. }
+  destruct (_ <=? _).
+  - rewrite bcast_heartbeat_eq in H. cbn [bind] in H. inversion H; subst. cbn.
+    repeat split; auto.
+  - inversion H; subst. cbn. repeat split; auto.
 Qed.
